@@ -1,0 +1,3 @@
+//! Verification hooks (only compiled with `--cfg linfa_verif`): read-only access for the C19
+//! serialisation round-trip check to a crate-private type that derives serde.
+pub use crate::argmin_param::ArgminParam;
